@@ -63,7 +63,16 @@ META = {
         "4 sqrt(eps) relative for translation blocks in the (1-cos)/theta^2 cancellation band",
         "one-parameter law of Exp: exact on the closed-form branch (se3), within eps^6/700 / eps^7/5000 on the all-Taylor branch for the "
         "rotation part (so3Exp_add_taylor); mixed branches and the Taylor-branch translation part are not proved (differences < 1e-90)",
-        "ape alignment invariance takes the optimality+uniqueness contract of svdstf (C17) as hypothesis",
+        "ape alignment invariance / identical=>0 in svd mode (*_partial theorems) take the optimality+uniqueness contract of svdstf "
+        "(C17) as hypothesis; GUARD: the matched positions are NOT collinear - on collinear positions (incl. two distinct points, all "
+        "equal) the contract is unsatisfiable (alignOK_collinear_false, collinear_optimum_not_unique) and the code's rotation-bearing "
+        "errors really differ: open known finding D43, reported as KNOWN-FINDING by the traj stream (matcher d43_matcher: exact "
+        "collinearity of the case's positions + align/scale + rotation-bearing etype); translation errors on collinear data and every "
+        "non-collinear case remain hard failures. rpe is not affected (rpeCore_unit_scale_alignment)",
+        "statistics: STD is claimed only for >= 2 errors (torch.std of one value is NaN); the other six statistics for >= 1",
+        "closed-form spline theorems: Exp(Log D) ~ D is proved in the generic regime and for exactly equal orientations; relative "
+        "angles in (0, ~2 eps] or within 2 eps of pi, and constant twists with 0 < |phi| <= eps, are stated (bspline_continuous, "
+        "bsplineAt_const_twist) but not closed",
     ],
 }
 
@@ -298,7 +307,7 @@ def _check_chs(ctx: Ctx, case, mb: MB) -> None:
                 j = max(range(len(got)), key=lambda n: abs(got[n] - want[n]))
                 ctx.disagree("chs", pub(case), f"fibre ({b},{d}) sample {j} (segment {j // k}, u-index {j % k}): implementation {got[j]!r} model {want[j]!r}, err {e:.3e} > {tol_f:.3e}")
                 ctx.fail(pub(case), f"chs-value: chspline sample {j} of fibre ({b},{d}) is {got[j]!r}, the Hermite spline through the points gives {want[j]!r} (N={N}, interval={iv!r})")
-        mb.add(f"c19.chs {N} {k} {to_wire(iv)} " + wire_list(col), cb)
+        mb.add(f"c19.chsa {N} {F.numerator} {F.denominator} {to_wire(iv)} " + wire_list(col), cb)      # grid size decided by the model (floatLen)
     # oracle: straight lines a + i d are reproduced at the right times (per coordinate)
     rl = random.Random(case["seed"] + 2)
     mags = [float(x) if float(x) > 0 else 1.0 for x in pmax.reshape(-1, D)[0].tolist()]
@@ -584,7 +593,8 @@ def _check_bs(ctx: Ctx, case, mb: MB) -> None:
                 ctx.disagree("bs", pub(case), f"item {b} pose {n} (segment {n // k}, u-index {n % k}): rotation err {dq[n]:.3e} (tol {qt:.3e}), translation err {dt_[n]:.3e} (tol {tt:.3e})")
                 ctx.fail(pub(case), f"bs-value: bspline pose {n} of item {b} (segment {n // k}, u-index {n % k}) is {got[n].tolist()}, the documented cumulative B-spline "
                                     f"P_i*Exp(w1 d1)*Exp(w2 d2)*Exp(w3 d3) gives {want[n].tolist()} (rotation err {dq[n]:.3e}, translation err {dt_[n]:.3e}; N={N}, interval={iv!r}, {dtype})")
-        mb.add(f"c19.bs {to_wire(eps)} {k} {to_wire(iv)} {1 if ex else 0} {N} " + wire_list(d64[b].flatten().tolist()), cb)
+        Fiv = Fraction(iv)
+        mb.add(f"c19.bsa {to_wire(eps)} {Fiv.numerator} {Fiv.denominator} {to_wire(iv)} {1 if ex else 0} {N} " + wire_list(d64[b].flatten().tolist()), cb)
     # oracle: constant-twist motions are reproduced at the right times
     if case["gen"] == "twist" and not case.get("flip") and "_X" not in case:
         b = rnd.randrange(nb)
@@ -960,6 +970,26 @@ def build_traj(case):
     rnd = random.Random(case["seed"])
     M, ts, rot = case["M"], case["tscale"], case["rot"]
     full = R.walk(rnd, M, ts, rot, tstep=case.get("tstep", ts))
+    geom = case.get("geom")
+    if geom:
+        # degenerate position geometry (D43 class): random orientations stay, positions are put on a line / two points / one point
+        unit = 2.0 ** round(math.log2(max(ts, 1e-6)))                      # dyadic scale: the exact kinds stay exact in float32 too
+        c0 = np.array([rnd.randint(-8, 8) * 0.25 for _ in range(3)]) * unit
+        if geom == "line-rounded":
+            dvec = R.rand_unit(rnd) * ts
+            sk = np.array([k_ * 0.37 + rnd.uniform(0, 0.2) for k_ in range(M)])
+        else:
+            dvec = np.array(rnd.choice([[1, 0, 0], [0, -1, 0], [1, 2, -2], [3, -1, 2], [0, 1, 1]]), dtype=np.float64) * unit * 0.5
+            if geom == "line":
+                sk = np.array([float(rnd.choice([k_, k_, k_ * 0.5, k_ - 1])) for k_ in range(M)])
+                sk[0], sk[-1] = 0.0, float(M)
+            elif geom == "two":
+                sk = np.array([float(k_ % 2) for k_ in range(M)])
+                rnd.shuffle(sk)
+                sk[0], sk[1] = 0.0, 1.0
+            else:  # "one"
+                sk = np.zeros(M)
+        full[:, :3] = c0 + sk[:, None] * dvec
     t0, dt = case["t0"], case["dt"]
     diff = case["diff"]
     st = [t0]
@@ -1177,6 +1207,58 @@ def model_flags(ctx: Ctx, mode: str):
     return _MODE_TABLE[(int(bool(fl.get("align"))), int(bool(fl.get("scale"))), int(bool(fl.get("origin"))))]
 
 
+ROT_ETYPES = ("rotation", "radian", "degree", "pose")
+
+
+def collinear_exact(P, eps) -> bool:
+    """exact rational test: every point lies within 256*eps*|u| of the line through the first point and the point farthest
+    from it (u = their difference); all points equal counts as collinear. No floating-point decision involved."""
+    pts = [[Fraction(float(x)) for x in p_] for p_ in np.asarray(P, dtype=np.float64)]
+    if len(pts) <= 2:
+        return True
+    p0 = pts[0]
+    vs = [[a - b for a, b in zip(p_, p0)] for p_ in pts]
+    n2 = [sum(c_ * c_ for c_ in v_) for v_ in vs]
+    jf = max(range(len(vs)), key=lambda j_: n2[j_])
+    u, u2 = vs[jf], n2[jf]
+    if u2 == 0:
+        return True
+    tau2 = Fraction(256 * eps) ** 2
+    for v_ in vs:
+        cx = [v_[1] * u[2] - v_[2] * u[1], v_[2] * u[0] - v_[0] * u[2], v_[0] * u[1] - v_[1] * u[0]]
+        if sum(c_ * c_ for c_ in cx) > tau2 * u2 * u2:
+            return False
+    return True
+
+
+def d43_matcher(kf, case) -> bool:
+    """known finding D43: True ONLY for (ape identical / invariance clause) AND svd alignment requested AND a rotation-bearing error
+    type AND the positions that enter svdstf collinear by the exact rational test on the re-built case data"""
+    if kf.get("id") != "D43":
+        return False
+    try:
+        if case.get("kind") != "traj" or case.get("clause") not in ("identical", "invariance"):
+            return False
+        fl = MODES[case["mode"]]
+        if not (fl.get("align") or fl.get("scale")) or case["etype"] not in ROT_ETYPES:
+            return False
+        B = build_traj(case)
+        eps = EPS[case["dtype"]]
+        if case["clause"] == "identical":
+            return collinear_exact(B["rp"][:, :3], eps)
+        return collinear_exact(B["ep"][B["ie"]][:, :3], eps) or collinear_exact(B["rp"][B["ir"]][:, :3], eps)
+    except Exception:
+        return False
+
+
+def scale_undefined(case, B, mode=None) -> bool:
+    """a scale is requested and all matched positions of the estimate (0/0) or of the reference (optimal scale 0) coincide:
+    svdstf raises ValueError from mat2Sim3(check=True) — recorded as an observation (see notes), not as a failure"""
+    fl = MODES[mode if mode is not None else case["mode"]]
+    P_, Q_ = B["ep"][B["ie"]][:, :3], B["rp"][B["ir"]][:, :3]
+    return bool(fl.get("scale")) and (bool((P_ == P_[0]).all()) or bool((Q_ == Q_[0]).all()))
+
+
 def check_traj(ctx: Ctx, case, mb: MB) -> None:
     guard(ctx, case, "traj", lambda: _check_traj(ctx, case, mb))
 
@@ -1201,6 +1283,9 @@ def _check_traj(ctx: Ctx, case, mb: MB) -> None:
             warnings.simplefilter("ignore")
             res = A.ape(rst, rpt, est_, ept, **kw)
     except Exception as e:
+        if isinstance(e, ValueError) and scale_undefined(case, B):
+            ctx.count("traj.observation.scale-undefined-raises")
+            return
         ctx.fail(pub(case), f"ape-raises: ape raised {excs(e)}")
         return
     for nm, a, b in zip(("rstamp", "rpose", "estamp", "epose"), (rst, rpt.tensor(), est_, ept.tensor()), snap):
@@ -1245,6 +1330,9 @@ def _check_traj(ctx: Ctx, case, mb: MB) -> None:
             T, cond = svd_T(ctx, case, B, ir, ie, with_scale_m)
             T = list(T)
         except Exception as e:
+            if isinstance(e, ValueError) and scale_undefined(case, B):
+                ctx.count("traj.observation.scale-undefined-raises")
+                return
             ctx.fail(pub(case), f"svdstf-raises: svdstf raised {excs(e)}")
             return
     ts = float(np.abs(B["rp"][:, :3]).max()) + abs(T[7]) * float(np.abs(B["ep"][:, :3]).max()) * 2 + float(np.abs(np.array(T[:3])).max()) + 1e-300
@@ -1306,11 +1394,18 @@ def _check_traj(ctx: Ctx, case, mb: MB) -> None:
         ztol = 4 * err_tol(case["etype"], 3 * float(np.abs(B["rp"][:, :3]).max()) + 1e-300) * (1e3 if svd_mode else 1) + unit_slack * (180 / math.pi if case["etype"] == "degree" else 1)
         worst = max(abs(v) for kx, v in zip(STAT_KEYS, zv) if kx != "SSE" and not math.isnan(v))
         if not worst <= ztol:
-            ctx.fail(pub(case), f"ape-identical: identical trajectories give non-zero statistics (max |stat| {worst:.3e} > {ztol:.3e}) for etype={case['etype']} mode={mode}")
+            ctx.fail(pub(case) | {"clause": "identical"}, f"ape-identical: identical trajectories give non-zero statistics (max |stat| {worst:.3e} > {ztol:.3e}) for etype={case['etype']} mode={mode}",
+                     known_matcher=d43_matcher)
     except Exception as e:
-        ctx.fail(pub(case), f"ape-raises: ape raised on identical trajectories: {excs(e)}")
-    # oracle: invariance of the aligned error under a transform of the estimate
-    if mode != "none" and (not svd_mode or cond > 1e-2):
+        if isinstance(e, ValueError) and MODES[mode].get("scale") and bool((B["rp"][:, :3] == B["rp"][0, :3]).all()):
+            ctx.count("traj.observation.scale-undefined-raises")
+        else:
+            ctx.fail(pub(case), f"ape-raises: ape raised on identical trajectories: {excs(e)}")
+    # oracle: invariance of the aligned error under a transform of the estimate (ill-conditioned but not collinear: skipped)
+    col = svd_mode and (collinear_exact(B["ep"][ie][:, :3], EPS[dtype]) or collinear_exact(B["rp"][ir][:, :3], EPS[dtype]))
+    if col:
+        ctx.count("traj.collinear")
+    if mode != "none" and (not svd_mode or cond > 1e-2 or col):
         with_scale = with_scale_m
         s = math.exp(rnd.uniform(-1.2, 1.2)) if with_scale else 1.0
         G = (R.rand_unit(rnd) * (ts + 1) * rnd.choice([0.1, 1.0, 10.0]), R.rand_quat(rnd))
@@ -1323,7 +1418,8 @@ def _check_traj(ctx: Ctx, case, mb: MB) -> None:
             if bad:
                 i = STAT_KEYS.index(bad)
                 kind = "similarity" if with_scale else "rigid"
-                ctx.fail(pub(case), f"ape-invariance: ape(mode={mode}, etype={case['etype']}) changes under a {kind} transform of the estimate: {bad} {vals[i]!r} -> {stat_vals(r2)[i]!r} (tol {tau2:.3e}, {n} pairs)")
+                ctx.fail(pub(case) | {"clause": "invariance"}, f"ape-invariance: ape(mode={mode}, etype={case['etype']}) changes under a {kind} transform of the estimate: {bad} {vals[i]!r} -> {stat_vals(r2)[i]!r} (tol {tau2:.3e}, {n} pairs)",
+                         known_matcher=d43_matcher)
         except Exception as e:
             ctx.fail(pub(case), f"ape-raises: ape raised on the transformed estimate: {excs(e)}")
     # oracle: jitter / offset do not matter once the association is the same
@@ -1360,6 +1456,9 @@ def check_rpe(ctx: Ctx, case, mb: MB, B, Tsvd, cond, ts, rnd) -> None:
             T, cond = svd_T(ctx, case, B, ir, ie, with_scale_m)
             T = list(T)
         except Exception as e:
+            if isinstance(e, ValueError) and scale_undefined(case, B, mode):
+                ctx.count("traj.observation.scale-undefined-raises")
+                return
             ctx.fail(pub(case), f"svdstf-raises: svdstf raised {excs(e)}")
             return
     # aligned estimate poses (independent float64) to decide the pairing and its margins
@@ -1529,6 +1628,8 @@ def gen_traj_cases(ctx: Ctx, n: int):
                               "associate": assoc, "delta": delta, "rtol": rng.choice([0.1, 0.3, 0.02]),
                               "all": rng.random() < 0.5, "rpair": rng.random() < 0.5},
                       "seed": rng.randrange(1 << 30)})
+        if rng.random() < 0.12:       # degenerate position geometry (D43 class)
+            cases[-1]["geom"] = rng.choice(["line", "line", "line-rounded", "two", "one"])
         if cases[-1]["stamps"] == "none":
             cases[-1]["offset"] = 0.0
     return cases
@@ -1637,6 +1738,20 @@ def corpus_traj():
                                etype=ETYPES[(r_i + s_i) % 5], mode=["none", "origin", "align"][s_i % 3],
                                rpe={"associate": "frame", "delta": 1.0 + (s_i % 2), "all": bool(r_i % 2)}))
             i += 1
+    gi = 0
+    for geom in ("line", "line-rounded", "two", "one"):     # pass 5: degenerate position geometry x svd modes x every error type
+        for mode in ("align", "align+scale", "scale", "align+origin", "none", "origin"):
+            for est in ("identical", "noisy", "transformed"):
+                if (gi % 3) and mode in ("none", "origin"):
+                    gi += 1
+                    continue
+                c.append(traj_case(i, M=4 + (gi * 5) % 9, geom=geom, mode=mode, est=est, etype=ETYPES[gi % 5], noise=[1e-2, 0.3][gi % 2],
+                                   dtype=["float64", "float64", "float32"][gi % 3], stamps=["jitter", "same", "sub", "none"][gi % 4],
+                                   tscale=[1.0, 50.0, 1e-2][gi % 3],
+                                   rpe={"mode": ["align", "align+scale", "none"][gi % 3], "etype": ETYPES[(gi + 2) % 5], "all": bool(gi % 2),
+                                        "associate": ["frame", "distance"][(gi // 2) % 2], "delta": [1.0, 2.0, 1.7][gi % 3]}))
+                i += 1
+                gi += 1
     for M_ in (3, 4, 7, 8):                                  # kind 16: lengths equal to the translation / quaternion / pose dimensions
         for mode in ("align", "align+scale", "scale+origin", "align+scale+origin"):
             c.append(traj_case(i, M=M_, mode=mode, etype=ETYPES[i % 5], stamps="jitter", rpe={"mode": "align+scale", "all": True}))
